@@ -188,12 +188,16 @@ def run_case(idx, rng, P, rep):
         names = [s['name'] for s in specs]
         sub = rng.sample(names, rng.randint(1, len(names)))
         try:
-            t2 = target.param.serialize_parameters(subset=sub)
+            # (subset: any iterable of names - a list, a set, something that can be iterated only once)
+            form = rng.choice(['list', 'tuple', 'set', 'iterator', 'generator'])
+            shape = {'list': list, 'tuple': tuple, 'set': set, 'iterator': iter, 'generator': lambda names_: (n_ for n_ in names_)}[form]
+            rep.count('subset_given_as_' + form)
+            t2 = target.param.serialize_parameters(subset=shape(sub))
             l2 = _strict_loads(t2)
             if set(l2) != set(sub):
                 viol('subset-keys', 'object', f'subset={sub} serialized keys {sorted(l2)}', st=expected)
             sub2 = rng.sample(sub, rng.randint(1, len(sub)))
-            kw2 = cls.param.deserialize_parameters(t2, subset=sub2)
+            kw2 = cls.param.deserialize_parameters(t2, subset=shape(sub2))
             if set(kw2) != set(sub2):
                 viol('subset-keys', 'object', f'deserialize subset={sub2} gave keys {sorted(kw2)}', st=expected)
             r2 = cls(**kw2)
